@@ -424,7 +424,12 @@ def run_case(case: dict) -> dict:
             except Exception as e:  # noqa: BLE001
                 v = {"clause": "deserialization-raised", "detail": f"from_proto(to_proto(model)) raised {type(e).__name__}: {str(e)[:300]}", "key": "deserialization-raised"}
         if v is None:
-            a, b = iso.canon_model(model), iso.canon_model(back)
+            # one tensor object behind differently named initializers can carry only one of their names; if a node
+            # attribute holds it too, the name written for the attribute is one of them and the object keeps another
+            ambiguous = any(len(set(ns)) > 1 for ns in sharers.values())
+            if ambiguous:
+                inc("attr_tensor_names_left_out_tensor_shared_by_two_initializers")
+            a, b = iso.canon_model(model, not ambiguous), iso.canon_model(back, not ambiguous)
             if a != b:
                 d = iso.first_difference(a, b)
                 field = (d or "").split(":")[0]
